@@ -14,8 +14,32 @@ let rec seqi a n = if n <= 0 then [] else a :: seqi (a + 1) (n - 1)
 
 let ids_string (l : int list) = if l = [] then "-" else String.concat "," (List.map string_of_int l)
 
+(* configured profile spec -> parts of the Coq model *)
+let parts_of_spec (spec : string) : part list =
+  List.concat (List.map (fun p ->
+    match String.split_on_char ':' p with
+    | ["once"; n] -> [POnce (z_of_int (int_of_string n))]
+    | ["const"; ops; ms] ->
+        let ops = int_of_string ops and ms = int_of_string ms in
+        if ops = 0 then [PPause (z_of_int (ms * 1000000))]
+        else [PConst (z_of_int (ops * ms / 1000), z_of_int (1000000000 / ops), z_of_int (ms * 1000000))]
+    | ["istep"; f; t; st; ms] ->
+        let t_ = int_of_string t in
+        (match new_instance_step (nat_of_int (t_ + 1)) (z_of_int (int_of_string f)) (z_of_int t_)
+                 (z_of_int (int_of_string st)) (z_of_int (int_of_string ms * 1000000)) with
+         | Some ps -> ps
+         | None -> failwith "model-out-of-fuel")
+    | _ -> failwith ("bad spec " ^ p)) (String.split_on_char '+' spec))
+
 let predict (c : string) (obs : string) : string * string * bool =
   match split_blank c with
+  | ["drain"; spec] ->
+      let m = flatten Z0 (parts_of_spec spec) in
+      let mi = List.map int_of_z m in
+      let rel = (match mi with [] -> [] | x :: _ -> List.map (fun y -> z_of_int (y - x)) mi) in
+      let want = Printf.sprintf "%d %s 1 %s" (List.length m) (rle rel) (rle m) in
+      (want, verdict (obs = want) ("self-started profile must release its tokens at the configured offsets, expected " ^ want),
+       List.length m >= 2)
   | ["istep"; from; to_; step; dur_ms] ->
       let dur = int_of_string dur_ms * 1000000 in
       let zf = z_of_int (int_of_string from) and zt = z_of_int (int_of_string to_)
@@ -28,10 +52,10 @@ let predict (c : string) (obs : string) : string * string * bool =
       let unl = String.length spec >= 4 && String.sub spec 0 4 = "unl:" in
       let want = Printf.sprintf "0 %s 0" (if unl then "0" else reps) in
       (want, verdict (obs = want) ("finish callback must fire exactly once, and only when the schedule has ended; expected " ^ want), true)
-  | ["start"; _per; _t; _rps; _a; k; _st; _shoot; _cancel; _failgun] ->
+  | ["start"; _per; _t; _rps; _a; k; _st; _shoot; _cancel; _failgun; _provrun] ->
       let k = int_of_string k in
       (match split_blank obs with
-       | [outcome; started; finished; ids; distinct; notahead; ammo_out; rps_fin; ext; fail; endclass; conserved; late] ->
+       | [outcome; started; finished; ids; distinct; notahead; ammo_out; rps_fin; ext; fail; endclass; conserved; late; onprofile] ->
            let started = int_of_string started and finished = int_of_string finished in
            let idl = if ids = "-" then [] else List.map int_of_string (String.split_on_char ',' ids) in
            let b = bool_of_field in
@@ -52,7 +76,7 @@ let predict (c : string) (obs : string) : string * string * bool =
            let p_ids = if async_fail then idl else m_ids in
            let p_started = if async_fail then started else List.length m_ids in
            let pred = Printf.sprintf "%s %d %d %s 1 %s %s %s %s %s %s %s 0" outcome p_started p_started (ids_string p_ids)
-               (field_of_bool m_notahead) ammo_out rps_fin ext fail m_end (if conserved = "-" then "-" else "1") in
+               (field_of_bool m_notahead) ammo_out rps_fin ext fail m_end (if conserved = "-" then "-" else "1") ^ " 1" in
            let v =
              if outcome = "hang" then "BAD:hang"
              else if rps_fin = "2" then "BAD:shared-rps-profile-reported-finished-before-its-end"
@@ -60,6 +84,7 @@ let predict (c : string) (obs : string) : string * string * bool =
              else if (not (b fail)) && idl <> seqi 0 started then "BAD:ids-not-consecutive-from-0"
              else if notahead <> "1" then "BAD:instance-created-before-its-startup-token"
              else if b fail && (List.exists (fun i -> i >= k || i < 0) idl || List.length idl < launched - 1) then "BAD:ids-with-failed-creation"
+             else if onprofile <> "1" then "BAD:instance-created-before-the-configured-profile-released-its-token"
              else if finished <> started then "BAD:instance-start-finish-counters"
              else if started > k then "BAD:more-instances-than-tokens"
              else if started < k && cause = None then "BAD:tokens-without-instances-and-no-listed-cause"
